@@ -62,7 +62,7 @@ CLAIMED["C06"] = ("Bounded symbolic model checking of both codecs on natural-lan
          "7 C06")
 
 CLAIMED["C04"] = ("Bounded symbolic model checking of every decoding entry point found in the current source (all UnmarshalJSON/UnmarshalText/GobDecode/UnmarshalBinary methods with a []byte parameter plus the package-level UnmarshalJSON and GobDecode, about 75): RAW - 0, 1 and 2 (thorough 3) completely unconstrained input bytes through the real fastjson parser and text unmarshalers (gob entry points: 0-1 bytes, 2 in thorough); SKEL - documents of 13 type families in which each term the decoders look up (harvested from the source) carries one of 21 values of unexpected kinds; HOLE - an unconstrained 1-2 (thorough 3) byte hole as the value of a term, as a member name and between members; DEEP - 40-fold nesting; GOB - valid streams carrying arbitrary small property maps, lists, scalars and pair lists at every GobDecode entry point. Asserted: no panic (interpreter detects run-time panics), every path terminates within the instruction budget, and whatever is returned can be inspected, compared and re-encoded in both codecs without panicking.",
-         "Time and memory proportional to the input is not decided (no cost model; a path that exceeded the budget would make the run inconclusive). Inputs longer than the stated number of free bytes outside the skeleton/hole families are outside the claim. Gob streams: relative to the gob model - real gob stream parsing is inside the stub; the hostile property maps travel in valid streams so every path is replayed against real gob natively. Formatting (%s/%v) of decoded values is not exercised (fmt's reflection paths are not modelled).",
+         "Time and memory proportional to the input is not decided (no cost model; a path that exceeded the budget would make the run inconclusive). Inputs longer than the stated number of free bytes outside the skeleton/hole families are outside the claim. Gob streams: relative to the gob model - real gob stream parsing is inside the stub; the hostile property maps travel in valid streams so every path is replayed against real gob natively. Formatting (%s and %v through fmt, interpreted from source over the reflect model) is part of the follow-up on every returned value.",
          "7 C04")
 CLAIMED["C05"] = ("Bounded symbolic model checking of the JSON decoders against documents produced by an independent writer in the harness (terms taken from the jsonld tags of the current struct definitions): for every type and every tagged field, each value shape (IRI string, embedded object with/without id/type, link, actor, activity, arrays, one-element arrays, single embedded object for list properties; text as plain string or as a language map under termMap; numbers, booleans, instants, xsd durations), in three writer variants (canonical; one-member lists as the bare member / single values as one-element arrays; single texts as language maps); asserted: decoding yields the Go type the document names and exactly the model's properties (field by field, modulo the one-element-list normal form), then encode-decode yields the same value and the bytes no longer change. The 19 mock documents of the repository decode and reach a fixpoint.",
          "One property per document besides id/type; symbolic id characters and two-byte texts; mock documents are used as they are (no structure-preserving mutation). Same numeric sets as C01.",
